@@ -84,6 +84,7 @@ func (src *Rollout) ConvertTo(dst conversion.Hub) error {
 				obj.Spec.Strategy.Canary.PatchPodTemplateMetadata.Labels[k] = v
 			}
 		}
+		obj.Spec.Strategy.Canary.DisableGenerateCanaryService = srcSpec.Strategy.Canary.DisableGenerateCanaryService
 		if !strings.EqualFold(src.Annotations[RolloutStyleAnnotation], string(PartitionRollingStyle)) {
 			obj.Spec.Strategy.Canary.EnableExtraWorkloadForCanary = true
 		}
@@ -235,6 +236,7 @@ func (dst *Rollout) ConvertFrom(src conversion.Hub) error {
 				dst.Spec.Strategy.Canary.PatchPodTemplateMetadata.Labels[k] = v
 			}
 		}
+		dst.Spec.Strategy.Canary.DisableGenerateCanaryService = srcV1beta1.Spec.Strategy.Canary.DisableGenerateCanaryService
 		if dst.Annotations == nil {
 			dst.Annotations = map[string]string{}
 		}
